@@ -1230,6 +1230,56 @@ def _register():
         "blake3_hasher_reset", API + ["C06"], inlined=["chunk_state_reset"],
         doc="every field equals hasher_init_base(self->key, self->chunk.flags); key and flags not written")
 
+    _register_fn(U)
+
+
+# --------------------------------------------------------------------------------------------
+# units *_fn: one-level functional contracts over uninterpreted kernels (cbmc/spec_fn.h)
+# --------------------------------------------------------------------------------------------
+FN_TRUST = [
+    "kernels are abstracted by uninterpreted functions (cbmc/spec_fn.h): each kernel family "
+    "(compress_in_place, compress_xof/xof_many, hash_many) is a deterministic function of its value "
+    "arguments, the same one for every ISA variant (portable: by definition; SSE2/SSE4.1/AVX2/AVX-512: "
+    "assumed), and writes nothing but its output; NOT claimed: that this function is BLAKE3's",
+    "CBMC's uninterpreted-function encoding (functional consistency constraints) is sound",
+]
+
+
+def _fn(base, doc, props=("C06",), **kw):
+    """functional twin of unit `base`: same function, harness, callees and loop contracts, compiled
+    with -DVERIF_FN (FN(...) clauses of contracts.h / loop_contracts.txt become active)"""
+    b = UNITS[base]
+    d = dict(b)
+    d.update(props=list(props), doc=doc, harness=b["harness"] or base, defs=b["defs"] + ["-DVERIF_FN"],
+             extra_trust=b["extra_trust"] + FN_TRUST, tier="quick")
+    for k, v in kw.items():
+        d[k] = v
+    d["fn"] = True
+    return d
+
+
+def _register_fn(U):
+    U["blake3_compress_in_place_fn"] = _fn(
+        "blake3_compress_in_place",
+        "every dispatch branch: cv' == UFcip(cv, block[0..64), block_len, counter, flags) -- all five "
+        "arguments reach the selected kernel unchanged")
+    U["blake3_compress_xof_fn"] = _fn(
+        "blake3_compress_xof",
+        "every dispatch branch: out[0..64) == UFxof(cv, block[0..64), block_len, counter, flags)")
+    U["blake3_xof_many_fn"] = _fn(
+        "blake3_xof_many",
+        "every byte: out[64 b + j] == UFxof(cv, block, block_len, counter + b, flags)[j] for every b < outblocks "
+        "(unbounded; loop contract with the witness byte) on the avx512 and the fallback path", props=["C06", "C07"])
+    U["output_chaining_value_fn"] = _fn(
+        "output_chaining_value",
+        "cv[0..32) == little-endian words of UFcip(self->input_cv, self->block, self->block_len, self->counter, "
+        "self->flags): ONE compression of exactly the node's five fields")
+    U["output_root_bytes_fn"] = _fn(
+        "output_root_bytes",
+        "EVERY byte i < out_len (unbounded, every seek): out[i] == UFxof(node fields, flags | ROOT, block counter "
+        "(seek+i)/64)[(seek+i)%64]: nothing requested is left unwritten, head / bulk / tail use the right counter "
+        "and offset", props=["C06", "C07"])
+
 
 _register()
 
